@@ -11,6 +11,8 @@ is a formula of the logic.
 """
 import warnings
 
+import common
+
 from common import from_obj, lang, lean_batch, proof_coverage, rng_for, sexpr
 from gen.formulas import is_ctl_state, is_ltl_path, is_pl
 from theorems import get
@@ -42,8 +44,7 @@ def lang_outcome(p, s, L):
     """outcome of a parser built with language=L on s: ('OK', tree, modules) / ('ERR', class, pos) / ('EXC', class)"""
     import pyModelChecking.parser as PP
     try:
-        with warnings.catch_warnings():
-            warnings.simplefilter('ignore')
+        with common.quiet():
             o = p(s)
     except (PP.UnexpectedToken, PP.UnexpectedCharacters) as e:
         return ('ERR', type(e).__name__, e.pos)
@@ -68,8 +69,7 @@ def _reverse_child():
             if L == N:
                 continue
             try:
-                with warnings.catch_warnings():
-                    warnings.simplefilter('ignore')
+                with common.quiet():
                     pl = lang(N).Parser(language=lang(L))
                     pd = lang(N).Parser()
             except Exception as e:
@@ -97,8 +97,7 @@ def language_stream(res, rng, quick, parsers, strings):
         for L in V.LOGICS:
             if L == N:
                 continue
-            with warnings.catch_warnings():
-                warnings.simplefilter('ignore')
+            with common.quiet():
                 pl = lang(N).Parser(language=lang(L))
             for s in texts:
                 d = lang_outcome(parsers[N], s, N)
@@ -138,8 +137,7 @@ def language_stream(res, rng, quick, parsers, strings):
             for L in V.LOGICS:
                 if L == N:
                     continue
-                with warnings.catch_warnings():
-                    warnings.simplefilter('ignore')
+                with common.quiet():
                     pl = lang(N).Parser(language=lang(L))
                 got = out['%s/%s' % (N, L)]
                 for s, pair in zip(LANG_TEXTS, got):
@@ -161,8 +159,7 @@ def run(res):
     quick = res.tier == 'quick'
     strings = V.fixed_strings() if not quick else ([x for x in V.fixed_strings() if x[0] != 'long'][::3] + [x for x in V.fixed_strings() if x[0] == 'long'][::4])
     strings += V.random_strings(rng, 5000 if quick else 60000)
-    with warnings.catch_warnings():
-        warnings.simplefilter('ignore')
+    with common.quiet():
         parsers = {M: lang(M).Parser() for M in V.LOGICS}
     lines, impl, meta = [], [], []
     direct = []
@@ -175,8 +172,7 @@ def run(res):
         for M in V.LOGICS:
             p = parsers[M]
             try:
-                with warnings.catch_warnings():
-                    warnings.simplefilter('ignore')
+                with common.quiet():
                     o = p(s)
                 try:
                     t = from_obj(o)
